@@ -281,7 +281,7 @@ func main() {
 	rng := vlib.NewRand(a.Seed)
 	n := 260
 	if a.Thorough() {
-		n = 5000
+		n = 1500
 	}
 	for i := 0; i < n; i++ {
 		conflict := i%4 == 3
